@@ -34,6 +34,10 @@ type c20Scenario struct {
 	Case string   `json:"case,omitempty"`
 }
 
+// options of `deploy` that take no part in its validation
+var c20Bystanders = [][]string{nil, {"--forward-headers"}, {"--forward-headers=false"}, {"--strip-path-prefix=false"}, {"--tls-redirect=false"}, {"--health-check-path", "/health"},
+	{"--target-timeout", "10s"}, {"--deploy-timeout", "5s", "--drain-timeout", "5s"}, {"--buffer-memory", "4096"}, {"--log-request-header", "X-A", "--log-response-header", "X-B"}, {"--tls-staging"}}
+
 func c20All(thorough bool, rng *rand.Rand) []c20Scenario {
 	var out []c20Scenario
 	for _, opt := range []string{"http-port", "https-port", "debug"} {
@@ -80,7 +84,12 @@ func c20All(thorough bool, rng *rand.Rand) []c20Scenario {
 									args = append(args, "--buffer-responses")
 								}
 								refuse := (tls && !host) || (tls && pfx == "/api") || (mreq && !breq) || (mresp && !bresp)
-								combos = append(combos, c20Scenario{Part: "deploy-validation", Args: args, Case: fmt.Sprintf("refuse=%v|tls=%v|host=%v|pfx=%s|mreq=%v|breq=%v|mresp=%v|bresp=%v", refuse, tls, host, pfx, mreq, breq, mresp, bresp)})
+								// every combination is tried bare and with each of the options that take no part
+								// in the validation (given explicitly, with their default value or another one)
+								for bi, by := range c20Bystanders {
+									a2 := append(append([]string{}, args...), by...)
+									combos = append(combos, c20Scenario{Part: "deploy-validation", Args: a2, Case: fmt.Sprintf("refuse=%v|tls=%v|host=%v|pfx=%s|mreq=%v|breq=%v|mresp=%v|bresp=%v|with=%d", refuse, tls, host, pfx, mreq, breq, mresp, bresp, bi)})
+								}
 							}
 						}
 					}
@@ -92,7 +101,7 @@ func c20All(thorough bool, rng *rand.Rand) []c20Scenario {
 		// every combination that involves TLS validation plus a sample of the rest
 		var keep []c20Scenario
 		for i, c := range combos {
-			if strings.Contains(c.Case, "tls=true") && !strings.Contains(c.Case, "mreq=true") && !strings.Contains(c.Case, "mresp=true") && !strings.Contains(c.Case, "breq=true") && !strings.Contains(c.Case, "bresp=true") || i%5 == 0 {
+			if strings.Contains(c.Case, "tls=true") && !strings.Contains(c.Case, "mreq=true") && !strings.Contains(c.Case, "mresp=true") && !strings.Contains(c.Case, "breq=true") && !strings.Contains(c.Case, "bresp=true") || i%37 == 0 {
 				keep = append(keep, c)
 			}
 		}
